@@ -761,6 +761,9 @@ class SymNP:
                 raise ValueError("operands could not be broadcast together (pad_width)")
             return [(tuple(x) if isinstance(x, (tuple, list)) else (x, x)) for x in pw]
         pws = norm(pad_width)
+        for b_, a_ in pws:
+            if b_ < 0 or a_ < 0:
+                raise ValueError("index can't contain negative values")
         cvs = norm(constant_values) if not _isarr(constant_values) else None
         if cvs is None:
             raise SymnpUnsupported("array-valued pad constants")
@@ -911,6 +914,18 @@ class SymNP:
 
     def callee_sq_and_neg(self, a):
         return a * a + 1, self.transpose(self.negative(a))
+
+    def callee_scaled(self, a, alpha):
+        return alpha * a + 1
+
+    def handmade_sub(self, x, y):
+        return x - y
+
+    def handmade_weighted(self, arrs):
+        r = arrs[0]
+        for k in range(1, len(arrs)):
+            r = r + (k + 1) * arrs[k]
+        return r
 
     def csr_matmul(self, shape, elem_values, elem_col_indices, row_starts, x):
         """y[i, ...] = sum_{k in [row_starts[i], row_starts[i+1])} elem_values[k] * x[elem_col_indices[k], ...]
